@@ -70,6 +70,8 @@ pub struct Scenario {
     pub client_window: Option<u32>,
     pub max_frame: Option<u32>,
     pub seed: u64,
+    pub server_timeout: Option<Duration>,
+    pub endpoint_timeout: Option<Duration>,
 }
 
 pub struct ScenarioOut {
@@ -101,6 +103,9 @@ pub fn run_scenario(sc: &Scenario) -> ScenarioOut {
         }
         if let Some(f) = sc.max_frame {
             sb = sb.max_frame_size(Some(f));
+        }
+        if let Some(t) = sc.server_timeout {
+            sb = sb.timeout(t);
         }
         let router = sb.add_service(VerifServer::new(h.clone()));
         let slog = log.clone();
@@ -171,6 +176,9 @@ pub fn run_scenario(sc: &Scenario) -> ScenarioOut {
             let mut ep = Endpoint::from_static("http://verif.test:50051");
             if let Some(w) = sc.client_window {
                 ep = ep.initial_stream_window_size(Some(w));
+            }
+            if let Some(t) = sc.endpoint_timeout {
+                ep = ep.timeout(t);
             }
             if !sc.lazy[ci] {
                 // A server window below the HTTP/2 default must be known to the client before it
@@ -343,6 +351,8 @@ pub fn gen_scenario(rng: &mut Rng, with_signal: bool) -> Scenario {
         client_window: if small { Some(*rng.pick(&[1u32, 7, 9, 64, 1000])) } else { None },
         max_frame: if rng.chance(1, 3) { Some(16384) } else { None },
         seed: rng.u64(),
+        server_timeout: None,
+        endpoint_timeout: None,
     }
 }
 
